@@ -51,7 +51,7 @@ PROPS = {
  },
  'C11': {
    'families': [('c11_repeat', 1, ALL)],
-   'runs': {'quick': 240, 'thorough': 10000},
+   'runs': {'quick': 480, 'thorough': 20000},
    'rule': 'non-trivial = the give-back oracle ran at quiescence after >= 3 repetitions; distinct = distinct event hash',
    'nontrivial': lambda r: sw(r, 'giveback_checked') > 0, 'distinct_by': 'event',
    'must_reach': ['giveback_checked'],
